@@ -25,7 +25,7 @@ RULE = (
     "the run may drop or abort on that file, it must not parse or rewrite it. Monitors on Lexer.lex / Parser.parse and the disk journal decide "
     "'never parsed, never written'; files_skipped and the exit code are compared with a model written from the "
     "statement. evaluations = scenario executions. non-trivial iff the model skipped >= 1 file and linted >= 1 "
-    "file in that execution; distinct = distinct (world digest, scenario digest, tape digest)."
+    "file in that execution, or skipped every one of >= 2 files (12 % of worlds set a limit below every file); distinct = distinct (world digest, scenario digest, tape digest)."
 )
 TIERS = {
     "quick": {"runs": 120, "budget_s": 60, "min_runs": 4, "run_timeout_s": 240},
@@ -90,6 +90,10 @@ def gen_world(rng: Rng) -> dict:
             world["files"]["proj/%s/.sqlfluff" % vdir]["b64"] = b64(ini({"sqlfluff": world["cfg"]["nested"][vdir]}))
         else:
             root_core["large_file_skip_char_limit"] = lim
+    if r2.chance(0.12):
+        # degenerate population: (nearly) every file is over the limit - nothing, or a single file, is left to lint
+        root_core["large_file_skip_byte_limit"] = r2.choice([5, 10, 40])
+        which = "all"
     world["files"]["proj/.sqlfluff"]["b64"] = b64(ini(world["cfg"]["sections"]))
     world["pinned"] = {"victim": victim, "which": which, "delta": delta}
     return world
@@ -267,12 +271,14 @@ def run_one(ctx: Any, seed: int, tier: str, replay: Optional[dict] = None) -> di
                     want = 1 if any(any(not v.get("warning") for v in vl) for vl in recs.values()) else 0
                     if code != want:
                         vs.append(("exit", "exit code %d but violations imply %d (skip_fail off, %d skipped)" % (code, want, len(S)), None))
-            if S and (set(mdl) - S):
+            if S and not (set(mdl) - S):
+                probes["all_files_skipped_runs"] += 1
+            if S and ((set(mdl) - S) or len(S) >= 2):
                 nontrivial.append("%s|%s|%s" % (wdig, sdig, tdig))
             probes["skipped_byte"] += sum(1 for r in S if mdl[r] == "byte")
             probes["skipped_char"] += sum(1 for r in S if mdl[r] == "char")
             probes["exec_%s_%s_p%d_%s" % (sc["via"], "fix" if fix else "lint", min(sc["processes"], 2), sc["backend"] if sc["processes"] > 1 else "serial")] += 1
-            if world["pinned"]["which"] != "none":
+            if world["pinned"]["which"] not in ("none", "all"):
                 probes["boundary_%s_%+d" % (world["pinned"]["which"], world["pinned"]["delta"])] += 1
             log.append([si, sdig, tdig, sorted((k, sha(repr(v))[:8]) for k, v in after.items()), [v[0] for v in vs], out.get("files_skipped"), out.get("exit_code")])
             for oracle, msg, why in vs:
